@@ -425,14 +425,17 @@ def group_reader(repo, cfg, methods=("_read_next", "read")):
 READER_FUNCS = [R + x for x in ("read", "_read_next", "_handle_flag_sequence", "_append_to_frame", "_start_frame", "_goto_hunt_mode")] + \
                [H + "_ReaderBuffer." + x for x in ("is_available", "pop", "extend", "trim_buffer_to_current_position", "trim_buffer_to_flag_or_end")]
 
-def hdlc_result(repo, tier, frame_want, reader, select=None, budget_ms=12000):
-    """build the requested groups in parallel processes; `select(oid)` keeps the obligations a property is about"""
-    from pyvc import solve
-    from pyvc.run import PropResult
+def hdlc_tasks(repo, frame_want, reader):
     tasks = []
     if frame_want is not None: tasks.append(("frame", group_frame, (repo, frame_want)))
     if reader:
         for cfg in CONFIGS: tasks.append((f"reader[{cfg_label(cfg, True).rsplit(',', 1)[0]}]", group_reader, (repo, cfg)))
+    return tasks
+
+def groups_result(tasks, select=None, budget_ms=12000):
+    """build the groups in parallel processes; `select(oid)` keeps the obligations a property is about (lemmas and canaries always stay)"""
+    from pyvc import solve
+    from pyvc.run import PropResult
     res = solve.run_groups(tasks, budget_ms=budget_ms)
     obls = []; undecided = []; seen = set(); stats = {}; derived = set()
     for name, status, payload, info, st_, der in res:
@@ -449,3 +452,6 @@ def hdlc_result(repo, tier, frame_want, reader, select=None, budget_ms=12000):
     r = PropResult(obls, e, derived=sorted(derived), undecided=undecided)
     r.pre_discharged = True
     return r
+
+def hdlc_result(repo, tier, frame_want, reader, select=None, budget_ms=12000):
+    return groups_result(hdlc_tasks(repo, frame_want, reader), select, budget_ms)
